@@ -85,7 +85,7 @@ fi
 if [ -f "$VERIF/csrc/rt_driver.c" ]; then
 	gcc -O1 -g -fno-omit-frame-pointer -fsanitize=address,undefined -fno-sanitize-recover=undefined \
 		-I"$REPO/lib/runtime/include" -o "$W/rt_driver" "$VERIF/csrc/rt_driver.c" \
-		-L"$W/ddp-asan/lib" -lddpruntime -lm >>"$LOG" 2>&1 || fail "rt_driver"
+		"$W/ddp-asan/lib/ddp_list_types_defs.o" -L"$W/ddp-asan/lib" -lddpruntime -lm >>"$LOG" 2>&1 || fail "rt_driver"
 fi
 
 # 5. de_DE.UTF-8 locale (sandbox only has C.utf8): copy + patch decimal point
